@@ -1088,14 +1088,49 @@ func (x *Exec) loopMeasure(st *St, fr *Frame, c *Contract, key string, extra map
 	return m
 }
 
+// forIndex: a counting loop "for i := 0; i < n; i++" written where a range loop could stand: its counter is what the
+// invariants of a range loop call $i (the number of completed iterations), so that a loop contract survives the rewrite
+// of a range loop into an index loop and back.
+func forIndex(n *ast.ForStmt, fr *Frame) types.Object {
+	as, ok := n.Init.(*ast.AssignStmt)
+	if !ok || as.Tok != token.DEFINE || len(as.Lhs) != 1 || len(as.Rhs) != 1 {
+		return nil
+	}
+	id, ok := as.Lhs[0].(*ast.Ident)
+	if !ok {
+		return nil
+	}
+	if lit, ok := as.Rhs[0].(*ast.BasicLit); !ok || lit.Value != "0" {
+		return nil
+	}
+	inc, ok := n.Post.(*ast.IncDecStmt)
+	if !ok || inc.Tok != token.INC {
+		return nil
+	}
+	if pid, ok := inc.X.(*ast.Ident); !ok || pid.Name != id.Name {
+		return nil
+	}
+	return fr.info.Defs[id]
+}
+
 func (x *Exec) forStmt(n *ast.ForStmt, st *St, fr *Frame, k func(*St)) {
 	c, key := x.loopContract(fr, n)
 	label := fr.label
+	idxObj := forIndex(n, fr)
+	idx := func(s *St) map[string]*Val {
+		if idxObj == nil {
+			return nil
+		}
+		if v, ok := s.vars[idxObj]; ok && v != nil {
+			return map[string]*Val{"$i": v}
+		}
+		return nil
+	}
 	run := func(st *St) {
 		if c == nil && !fr.inlined {
 			x.Notes = append(x.Notes, "loop "+key+" has no invariant")
 		}
-		x.checkInvariants(st, fr, c, key, "init", nil, n.Pos())
+		x.checkInvariants(st, fr, c, key, "init", idx(st), n.Pos())
 		x.assertWF(st, "loop#"+key, x.W.pos(n.Pos()))
 		nodes := []ast.Node{n.Body}
 		if n.Post != nil {
@@ -1106,11 +1141,37 @@ func (x *Exec) forStmt(n *ast.ForStmt, st *St, fr *Frame, k func(*St)) {
 		}
 		hv := st.clone()
 		x.loopHavoc(hv, fr, nodes, key)
-		x.assumeInvariants(hv, fr, c, key, nil)
+		if idxObj != nil {
+			// a counting loop "for i := 0; i < len(s); i++" whose body assigns neither i nor s: 0 <= i <= len(s) at every
+			// loop head (what a range loop gives for free)
+			bodyAssigns := map[types.Object]bool{}
+			for _, v := range x.assignedIn([]ast.Node{n.Body}, fr) {
+				bodyAssigns[v] = true
+			}
+			if iv, ok := hv.vars[idxObj]; ok && iv != nil && iv.T != nil && !bodyAssigns[idxObj] {
+				x.assume(hv, Cmp("<=", IntLit(0), iv.T))
+				if be, ok := n.Cond.(*ast.BinaryExpr); ok && be.Op == token.LSS {
+					if l, ok := be.X.(*ast.Ident); ok && fr.info.Uses[l] == idxObj {
+						if call, ok := be.Y.(*ast.CallExpr); ok && len(call.Args) == 1 {
+							if fn, ok := call.Fun.(*ast.Ident); ok && fn.Name == "len" && fr.info.Uses[fn] == types.Universe.Lookup("len") {
+								if sid, ok := call.Args[0].(*ast.Ident); ok {
+									if so := fr.info.Uses[sid]; so != nil && !bodyAssigns[so] {
+										if sv, ok := hv.vars[so]; ok && sv != nil && sv.T != nil && sv.T.Sort.IsSeq() {
+											x.assume(hv, Cmp("<=", iv.T, SeqLen(sv.T)))
+										}
+									}
+								}
+							}
+						}
+					}
+				}
+			}
+		}
+		x.assumeInvariants(hv, fr, c, key, idx(hv))
 		x.assumeWF(hv)
 		var m0 *Term
 		if c != nil && c.Decreases != nil {
-			m0 = x.loopMeasure(hv, fr, c, key, nil)
+			m0 = x.loopMeasure(hv, fr, c, key, idx(hv))
 		}
 		afterCond := func(hv *St, cond *Term) {
 			// exit path
@@ -1129,10 +1190,10 @@ func (x *Exec) forStmt(n *ast.ForStmt, st *St, fr *Frame, k func(*St)) {
 			body.note("loop %s: arbitrary iteration", key)
 			endIter := func(st *St) {
 				after := func(st *St) {
-					x.checkInvariants(st, fr, c, key, "keep", nil, n.Pos())
+					x.checkInvariants(st, fr, c, key, "keep", idx(st), n.Pos())
 					x.assertWF(st, "loop#"+key+"/keep", x.W.pos(n.Pos()))
 					if m0 != nil {
-						m1 := x.loopMeasure(st, fr, c, key, nil)
+						m1 := x.loopMeasure(st, fr, c, key, idx(st))
 						x.emit(st, oblTemplate{kind: "decreases", label: "loop", clause: c.Decreases.Text, pos: x.W.pos(n.Pos()),
 							name: fr.fi.Key + "/loop#" + key[strings.LastIndex(key, "#")+1:] + "/decreases"}, nil, And(Cmp("<", m1, m0), Cmp(">=", m0, IntLit(0))))
 					}
